@@ -334,6 +334,19 @@ def handle (st : St) (args : List String) (impl : String) : St × Verdict :=
       let e := Kv.storeNewCrash prefixes { tbl := st.m.committed, old := st.old } c
       ({ st with m := { committed := e.tbl, stack := [] }, old := e.old }, .ok)
     | none => (st, .unknown)
+  -- run `deferred`: a resize that fell due at `(map, used)` and was deferred; whatever happened during
+  -- the wait, afterwards the map is at least the planned size (`deferred_resize_sets_planned_size`),
+  -- a whole number of chunks, and nothing failed
+  | ["deferred", _holder, _n, mb, ub, c] => match nat? mb, nat? ub, nat? c with
+    | some mb, some ub, some c =>
+      let r := needsResize mb ub c
+      match (impl.splitOn " ").map nat? with
+      | [some after, some fails] =>
+        if !r.1 then (st, .ok)
+        else if after ≥ r.2 && after % c == 0 && fails == 0 then (st, .ok)
+        else (st, .fail s!"map >= {r.2}, a multiple of {c}, 0 failures")
+      | _ => (st, .unknown)
+    | _, _, _ => (st, .unknown)
   -- run `shared`: the other handle's data must be what it wrote, whatever the migrating store does
   | ["other_set", d] => ({ st with other := d }, .ok)
   | ["other_obs"] => (st, cmpSpec st.other impl)
